@@ -96,7 +96,10 @@ class Lexer:
         if '.' in t.value:
             t.value = float(t.value)
         else:
-            t.value = int(t.value)
+            try:
+                t.value = int(t.value)
+            except ValueError:
+                raise exceptions.YaqlLexicalException(t.value[0], t.lexpos)
         return t
 
     @staticmethod
